@@ -219,22 +219,25 @@ theorem good_step (s : ProcSys) (i : Nat) (h : Excl s ∧ Saw s ∧ Flag s)
         · unfold Flag; simp only
           refine ⟨fun _ => ⟨i, .inside s.commits, ?_, rfl⟩, fun _ => by rw [hl]; rfl⟩
           rw [getElem?_set_of _ i hget]; simp
-      · -- still empty: the holder initialises the file and keeps the lock
-        have hl := hE i _ hget rfl
-        refine ⟨?_, ?_, ?_⟩
-        · intro j p hj hp
-          simp only [getElem?_set_of _ j hget] at hj
-          split at hj
-          · subst j; exact hl
-          · exact hE j p hj hp
-        · intro j n hj
-          simp only [getElem?_set_of _ j hget] at hj
-          split at hj
-          · cases hj
-          · exact hS j n hj
-        · unfold Flag; simp only
-          refine ⟨fun _ => ⟨i, .locked, ?_, rfl⟩, fun _ => by rw [hl]; rfl⟩
-          rw [getElem?_set_of _ i hget]; simp
+      · split
+        · -- not empty, no valid header: the holder fails and its handle is dropped, which releases the lock
+          exact release .failed s.commits rfl rfl
+        · -- still empty  : the holder initialises the file and keeps the lock
+          have hl := hE i _ hget rfl
+          refine ⟨?_, ?_, ?_⟩
+          · intro j p hj hp
+            simp only [getElem?_set_of _ j hget] at hj
+            split at hj
+            · subst j; exact hl
+            · exact hE j p hj hp
+          · intro j n hj
+            simp only [getElem?_set_of _ j hget] at hj
+            split at hj
+            · cases hj
+            · exact hS j n hj
+          · unfold Flag; simp only
+            refine ⟨fun _ => ⟨i, .locked, ?_, rfl⟩, fun _ => by rw [hl]; rfl⟩
+            rw [getElem?_set_of _ i hget]; simp
     | inside n => exact release .closed (s.commits + 1) rfl rfl
     | closed => simp at he
     | failed => simp at he
@@ -276,8 +279,9 @@ theorem noFailure_set (s : ProcSys) (i : Nat) (p' : PPhase) (f : FileSt) (l : Op
   · exact h p hp
   · subst hp; simpa using hp'
 
-/-- `step` only ever sets the phases `.opened`, `.locked`, `.inside _`, `.closed`: nobody becomes `.failed` -/
-theorem noFailure_step (s : ProcSys) (i : Nat) (hN : s.noFailure = true) : (s.step i).noFailure = true := by
+/-- the only transition into `.failed` is the `.locked` step that finds a `.garbage` file -/
+theorem noFailure_step (s : ProcSys) (i : Nat) (hf : s.file ≠ .garbage) (hN : s.noFailure = true) :
+    (s.step i).noFailure = true := by
   unfold ProcSys.step
   split
   · exact hN
@@ -291,23 +295,80 @@ theorem noFailure_step (s : ProcSys) (i : Nat) (hN : s.noFailure = true) : (s.st
     | creating => exact noFailure_set s i _ _ _ _ hN (by decide)
     | opened => exact noFailure_set s i _ _ _ _ hN (by decide)
     | locked =>
-      simp only []
-      split
-      · exact noFailure_set s i _ _ _ _ hN (by simp)
-      · exact noFailure_set s i _ _ _ _ hN (by decide)
+      by_cases hr : s.file = .ready
+      · simp only [if_pos hr]; exact noFailure_set s i _ _ _ _ hN (by simp)
+      · simp only [if_neg hr, if_neg hf]; exact noFailure_set s i _ _ _ _ hN (by decide)
     | inside n => exact noFailure_set s i _ _ _ _ hN (by decide)
     | closed => exact hN
     | failed => exact hN
 
+/-- no step produces a `.garbage` file: `.start` turns `.missing` into `.created`, the `.locked` step of
+an empty file turns it into `.ready`, every other step leaves the file as it is -/
+theorem file_step_ne_garbage (s : ProcSys) (i : Nat) (hf : s.file ≠ .garbage) :
+    (s.step i).file ≠ .garbage := by
+  unfold ProcSys.step
+  split
+  · exact hf
+  · rename_i ph hget
+    cases ph with
+    | start =>
+      simp only []
+      split
+      · intro h; cases h
+      · exact hf
+    | creating => exact hf
+    | opened => exact hf
+    | locked =>
+      by_cases hr : s.file = .ready
+      · simp only [if_pos hr]; exact hf
+      · simp only [if_neg hr, if_neg hf]; intro h; cases h
+    | inside n => exact hf
+    | closed => exact hf
+    | failed => exact hf
+
+/-- no step overwrites a `.garbage` file -/
+theorem file_step_garbage (s : ProcSys) (i : Nat) (hf : s.file = .garbage) :
+    (s.step i).file = .garbage := by
+  unfold ProcSys.step
+  split
+  · exact hf
+  · rename_i ph hget
+    cases ph with
+    | start =>
+      simp only []
+      split
+      · rename_i hm; rw [hf] at hm; cases hm
+      · exact hf
+    | creating => exact hf
+    | opened => exact hf
+    | locked =>
+      have hr : s.file ≠ .ready := by rw [hf]; decide
+      simp only [if_neg hr, if_pos hf]
+      exact hf
+    | inside n => exact hf
+    | closed => exact hf
+    | failed => exact hf
+
 theorem noFailure_run (sched : List Nat) :
-    ∀ (s : ProcSys), s.noFailure = true → (s.run sched).noFailure = true := by
+    ∀ (s : ProcSys), s.file ≠ .garbage → s.noFailure = true → (s.run sched).noFailure = true := by
+  induction sched with
+  | nil => intro s _ h; exact h
+  | cons i rest ih =>
+    intro s hf h
+    unfold ProcSys.run
+    split
+    · exact ih _ (file_step_ne_garbage s i hf) (noFailure_step s i hf h)
+    · exact ih s hf h
+
+theorem garbage_run (sched : List Nat) :
+    ∀ (s : ProcSys), s.file = .garbage → (s.run sched).file = .garbage := by
   induction sched with
   | nil => intro s h; exact h
   | cons i rest ih =>
     intro s h
     unfold ProcSys.run
     split
-    · exact ih _ (noFailure_step s i h)
+    · exact ih _ (file_step_garbage s i h)
     · exact ih s h
 
 theorem noFailure_initial (n : Nat) (file : FileSt) : (ProcSys.initial n file).noFailure = true := by
@@ -326,7 +387,7 @@ theorem inside_of_mem_set {l : List PPhase} {i n : Nat} {p' : PPhase} (hp' : ∀
   · exact (hp' n h.symm).elim
 
 /-- a process gets inside only by a `.locked` step that found the file ready, and no step moves the file
-away from `.ready` (`.start` changes it only when it is `.missing`) -/
+away from `.ready` (`.start` changes it only when it is `.missing`, `.locked` only when it is empty) -/
 theorem readyInv_step (s : ProcSys) (i : Nat) (h : ReadyInv s) : ReadyInv (s.step i) := by
   unfold ProcSys.step
   split
@@ -353,7 +414,10 @@ theorem readyInv_step (s : ProcSys) (i : Nat) (h : ReadyInv s) : ReadyInv (s.ste
       split
       · rename_i hr
         intro n hn; exact hr
-      · intro n hn; rfl
+      · split
+        · intro n hn
+          exact h n (inside_of_mem_set (by intro m; exact PPhase.noConfusion) hn)
+        · intro n hn; rfl
     | inside m =>
       intro n hn
       exact h m (List.mem_of_getElem? hget)
@@ -393,17 +457,19 @@ theorem exclusive_run (n : Nat) (file : FileSt) (sched : List Nat) :
   exact h.1
 
 open ProcAux in
-/-- X4: whatever the initial file state (missing, created but empty, initialised), no process ever fails,
-under every schedule: a missing or empty file is initialised by whoever holds the lock -/
-theorem never_fails (n : Nat) (file : FileSt) (sched : List Nat) :
+/-- X4: when the initial file is missing, empty or initialised -- anything but a non-empty file without a
+valid header -- no process ever fails, under every schedule: a missing or empty file is initialised by
+whoever holds the lock, no step produces a `.garbage` file, and the only transition into `.failed` is the
+`.locked` step that finds one.  The hypothesis is needed: `garbage_file_fails`. -/
+theorem never_fails (n : Nat) (file : FileSt) (hf : file ≠ .garbage) (sched : List Nat) :
     ((ProcSys.initial n file).run sched).noFailure = true :=
-  noFailure_run sched _ (noFailure_initial n file)
+  noFailure_run sched _ hf (noFailure_initial n file)
 
 /-- X3: when the file exists and is initialised from the start, no process ever fails, under every
 schedule -/
 theorem existing_file_no_failure (n : Nat) (sched : List Nat) :
     ((ProcSys.initial n .ready).run sched).noFailure = true :=
-  never_fails n .ready sched
+  never_fails n .ready (by decide) sched
 
 open ProcAux in
 /-- X5: whoever is inside the database sees an initialised file, for every initial file state and
@@ -418,6 +484,18 @@ theorem inside_sees_ready_file (n : Nat) (file : FileSt) (sched : List Nat) :
   cases p with
   | inside m => exact inv m hp
   | _ => cases hq
+
+/-- X7: the model can express failure.  A single process that opens a non-empty file without a valid
+header (open, lock, read the header) fails -/
+theorem garbage_file_fails : ((ProcSys.initial 1 .garbage).run [0, 0, 0]).noFailure = false := by
+  decide
+
+open ProcAux in
+/-- X8: a non-empty file the code cannot read is never overwritten: it is still `.garbage` after every
+schedule of any number of processes -/
+theorem garbage_never_initialised (n : Nat) (sched : List Nat) :
+    ((ProcSys.initial n .garbage).run sched).file = .garbage :=
+  garbage_run sched _ rfl
 
 /-- X6 (former finding D12, about the pinned order): when the file does not exist yet, a second process
 can get the lock on the file the first one has created but not yet initialised, and fails -/
